@@ -56,12 +56,18 @@ def make_case(rng, s):
     K = int_metric(rng, s.crystal_system, s.cell_choice)
     S = 400.0
     cell = cell_of(K, S)
-    qs = sorted(set(int(np.array(h).dot(np.array(K)).dot(h)) for h in itertools.product(range(-4, 5), repeat=3) if any(h)))
+    qs = sorted(set(int(np.array(h).dot(np.array(K)).dot(h)) for h in itertools.product(range(-6, 7), repeat=3) if any(h)))
     M = rng.choice([q for q in qs if 30 <= q <= 110] or qs[-5:])
     m = rng.choice([None, None, rng.choice([q for q in qs if q < M // 2] or [qs[0]])])
     hi = 0.5 * math.sqrt((M + 0.5) / S)
     lo = 0.0 if m is None else 0.5 * math.sqrt((m + 0.5) / S)
     scaled = (s.Laue == '-3' and s.cell_choice == 'rhombohedral')
+    if s.cell_choice == 'rhombohedral' and rng.random() < 0.5:
+        # larger shells for the rhombohedral traversals (where the 1.1 look-ahead matters)
+        big = [q for q in qs if 150 <= q <= 420]
+        if big:
+            M = rng.choice(big)
+            hi = 0.5 * math.sqrt((M + 0.5) / S)
     return dict(K=K, S=S, cell=cell, M=M, m=m, lo=lo, hi=hi, scaled=scaled)
 
 
@@ -111,7 +117,8 @@ def correspondence(ctx, which, fname):
         r = sets[i]
         ch = 'rhombohedral' if r['choice'] == 'rhombohedral' else 'standard'
         s = sg.sg(sgno=r['no'], cell_choice=ch)
-        for rep in range(ctx.n(1, 3)):
+        nrep = ctx.n(1, 3) * (12 if (r['choice'] == 'rhombohedral' and r['laue'] == '-3') else (4 if r['choice'] == 'rhombohedral' else 1))
+        for rep in range(nrep):
             case = make_case(rng, s)
             mod = tools if (i + rep) % 2 == 0 else laue
             G, Tmin, Tmax, Tterm = coq_params(case)
@@ -153,13 +160,57 @@ def search_cases(ctx):
             s = sg.sg(sgno=no, cell_choice=ch)
             if ch == 'rhombohedral' and s.cell_choice != 'rhombohedral':
                 continue
-            if ctx.quick and rng.random() < 0.6 and s.cell_choice != 'rhombohedral' and no > 15 and no not in (146, 148):
+            if ctx.quick and not ctx.broken and rng.random() < 0.6 and s.cell_choice != 'rhombohedral' and no > 15 and no not in (146, 148):
                 continue
-            for rep in range(ctx.n(1, 3) + (2 if no <= 15 else 0)):
+            for rep in range(ctx.n(1, 3) + (2 if no <= 15 else 0) + (2 if ctx.broken else 0) + (6 if s.cell_choice == 'rhombohedral' else 0)):
                 out.append((no, ch, s, make_case(rng, s)))
+    if ctx.broken or not ctx.quick:
+        # directed sweep: Laue -3 on rhombohedral axes (the only place where the 1.1 look-ahead factor acts), acute cells, large shells
+        for no in (146, 148):
+            s = sg.sg(sgno=no, cell_choice='rhombohedral')
+            for rep in range(60 if ctx.broken else 20):
+                k = rng.randint(8, 14)
+                m = rng.randint(-3, -1)          # negative reciprocal off-diagonal = acute direct angle
+                K = [[k, m, m], [m, k, m], [m, m, k]]
+                S = 400.0
+                cell = cell_of(K, S)
+                qs = sorted(set(int(np.array(h).dot(np.array(K)).dot(h)) for h in itertools.product(range(-7, 8), repeat=3) if any(h)))
+                M = rng.choice([q for q in qs if 200 <= q <= 500])
+                out.append((no, 'rhombohedral', s, dict(K=K, S=S, cell=cell, M=M, m=None, lo=0.0, hi=0.5 * math.sqrt((M + 0.5) / S), scaled=True)))
     return out
 
 
 def oblique(case):
     K = case['K']
     return any(K[i][j] != 0 for i in range(3) for j in range(3) if i != j)
+
+
+def sysabs_box_mismatches(H=4):
+    """directed search used when the sysabs obligation is broken: python sysabs vs extinction by the operators on a box"""
+    from xfab import sg, tools
+    out = []
+    rngb = range(-H, H + 1)
+    for no in range(1, 231):
+        for ch in ('standard', 'rhombohedral'):
+            s = sg.sg(sgno=no, cell_choice=ch)
+            if ch == 'rhombohedral' and s.cell_choice != 'rhombohedral':
+                continue
+            R, t = HR.ops_int(s)
+            Rl = [tuple(map(int, r.reshape(-1))) for r in R]
+            tl = [tuple(map(int, x)) for x in t]
+            sc = [int(x) for x in s.syscond]
+            for h in itertools.product(rngb, repeat=3):
+                if not any(h):
+                    continue
+                ext = False
+                for r, tt in zip(Rl, tl):
+                    g = (h[0] * r[0] + h[1] * r[3] + h[2] * r[6], h[0] * r[1] + h[1] * r[4] + h[2] * r[7], h[0] * r[2] + h[1] * r[5] + h[2] * r[8])
+                    if g == h and (h[0] * tt[0] + h[1] * tt[1] + h[2] * tt[2]) % 12:
+                        ext = True
+                        break
+                absent = tools.sysabs(list(h), sc, s.crystal_system, s.cell_choice) != 0
+                if absent and not ext:
+                    out.append((no, ch, h, 'absent by sysabs but not extinguished by any operation'))
+                    break
+                # the converse only has to hold for the representative the traversal visits; it is checked through genhkl_all below
+    return out
